@@ -432,7 +432,13 @@ class Arbiter:
             return
 
         master_pid = os.getpid()
-        self.reexec_pid = os.fork()
+        try:
+            self.reexec_pid = os.fork()
+        except OSError as e:
+            # no upgrade this time - but no reason to stop serving either
+            self.log.error("Could not fork the new master: %s", e)
+            self.reexec_pid = 0
+            return
         if self.reexec_pid != 0:
             return
 
@@ -644,6 +650,9 @@ class Arbiter:
             self.cfg.pre_fork(self, worker)
             pid = os.fork()
         except OSError as e:
+            if e.errno not in (errno.EAGAIN, errno.ENOMEM, errno.EMFILE,
+                               errno.ENFILE, errno.ENOSPC):
+                raise
             # out of processes, memory, descriptors or disk space right now:
             # the server goes on with the workers it has, and the next round
             # of manage_workers() tries again
